@@ -187,8 +187,26 @@ func planScreen(rng *rand.Rand, nops int, w, h int, mix string, rich bool, hasCa
 				add(sop{Op: "SetTitle", S: []string{"t1", "hello world", ""}[rng.Intn(3)]})
 			case k < 80:
 				add(sop{Op: "EnableMouse", N: 1 + rng.Intn(8)})
-			case k < 85:
+			case k < 83:
 				add(sop{Op: "EnablePaste"})
+			case k < 90 && mix == "modes":
+				// the other mode calls while suspended: they take effect at Resume
+				switch rng.Intn(7) {
+				case 0:
+					add(sop{Op: "DisableMouse"})
+				case 1:
+					add(sop{Op: "DisablePaste"})
+				case 2:
+					add(sop{Op: "EnableFocus"})
+				case 3:
+					add(sop{Op: "DisableFocus"})
+				case 4:
+					add(sop{Op: "SetCursorStyle", N: rng.Intn(7), Col: tcell.PaletteColor(rng.Intn(8))})
+				case 5:
+					add(sop{Op: "HideCursor"})
+				default:
+					add(sop{Op: "Suspend"})
+				}
 			case k < 90:
 				add(sop{Op: "Suspend"})
 			default:
